@@ -2,6 +2,7 @@
 Fail-closed: a shape that is not recognised makes the corresponding tr_*_ok definition `false`, and the theorems that
 need it stop compiling."""
 import ast
+import re
 import json
 import os
 import sys
@@ -594,8 +595,9 @@ def element_effects():
             inner = []
             for x in st.body + st.orelse:
                 inner += classify(x, helpers)
-            if test in ('self.xsd_check', 'not self._child_container_tree', 'not list_of_olds') or test.startswith('parent_container.chosen_child =='):
-                return inner
+            if test in ('self.xsd_check', 'not self._child_container_tree') or test.startswith('parent_container.chosen_child ==') \
+                    or (isinstance(st.test, ast.UnaryOp) and isinstance(st.test.op, ast.Not) and isinstance(st.test.operand, ast.Name)):
+                return inner                  # `if not <a local list>:` guards a raise
             if test == "hasattr(old, '__call__')" and inner == ['ReadMayRaise', 'ReadMayRaise']:
                 return ['ReadMayRaise']
             raise Fail('unrecognised condition: ' + test)
@@ -609,8 +611,19 @@ def element_effects():
             return ['SetParent']
         if u.startswith('self.TYPE(val') or u == 'self._check_child_to_be_added(new)':
             return ['Validate']
-        if u.startswith('list_of_olds = [ch for ch in self.get_children(ordered=True) if ') or u == 'old_index = self._unordered_children.index(list_of_olds[index])':
+        if re.fullmatch(r"\w+ = \[ch for ch in self\.get_children\(ordered=True\) if .*\]", u, re.S) or re.fullmatch(r"old_index = self\._unordered_children\.index\(\w+\[index\]\)", u):
             return ['ReadMayRaise']
+        # the same selection spelt as a loop that only appends to a local list
+        if isinstance(st, ast.For) and not st.orelse and ast.unparse(st.iter) == 'self.get_children(ordered=True)':
+            inner_st = st.body
+            while len(inner_st) == 1 and isinstance(inner_st[0], ast.If) and not inner_st[0].orelse:
+                inner_st = inner_st[0].body
+            if len(inner_st) == 1 and isinstance(inner_st[0], ast.Expr) and isinstance(inner_st[0].value, ast.Call) and isinstance(inner_st[0].value.func, ast.Attribute) \
+                    and inner_st[0].value.func.attr == 'append' and isinstance(inner_st[0].value.func.value, ast.Name):
+                return ['ReadMayRaise']
+        if isinstance(st, ast.Assign) and len(st.targets) == 1 and isinstance(st.targets[0], ast.Name) and (
+                ast.unparse(st.value) in ('[]', 'list()') or (isinstance(st.value, ast.Call) and isinstance(st.value.func, ast.Name) and st.value.func.id in ('hasattr', 'isinstance', 'callable', 'len'))):
+            return ['Read']
         if u in ('old_child = self._unordered_children[old_index]', 'parent_xsd_element = old_child.parent_xsd_element'):
             return ['Read']
         if u == 'self._unordered_children.remove(old_child)':
@@ -644,6 +657,7 @@ def element_effects():
         raise Fail('unrecognised statement: ' + u[:80])
     out = {}
     for k, f in fns.items():
+        f = inline_self_aliases(f)
         helpers = set()
         eff = []
         for st in f.body:
@@ -652,6 +666,41 @@ def element_effects():
     return out
 
 
+
+def inline_self_aliases(fn):
+    """a copy of the function's body in which every local that is bound exactly once, to a plain attribute chain on self (no call), and only read
+    afterwards, is replaced by that attribute chain (so `c = self._child_container_tree ... c.add_element(x)` reads like the direct spelling)"""
+    import copy as _copy
+    fn = _copy.deepcopy(fn)
+    binds = {}
+    stores = {}
+    for n in ast.walk(fn):
+        if isinstance(n, ast.Name) and isinstance(n.ctx, (ast.Store, ast.Del)):
+            stores[n.id] = stores.get(n.id, 0) + 1
+    for st in ast.walk(fn):
+        if isinstance(st, ast.Assign) and len(st.targets) == 1 and isinstance(st.targets[0], ast.Name):
+            v = st.value
+            chain = v
+            while isinstance(chain, ast.Attribute):
+                chain = chain.value
+            if isinstance(v, ast.Attribute) and isinstance(chain, ast.Name) and chain.id == 'self' and stores.get(st.targets[0].id) == 1:
+                binds[st.targets[0].id] = (st, v)
+    if not binds:
+        return fn
+
+    class Sub(ast.NodeTransformer):
+        def visit_Name(self, n):
+            if n.id in binds and isinstance(n.ctx, ast.Load):
+                return _copy.deepcopy(binds[n.id][1])
+            return n
+
+        def generic_visit(self, node):
+            for field in ('body', 'orelse', 'finalbody'):
+                if isinstance(getattr(node, field, None), list):
+                    setattr(node, field, [x for x in getattr(node, field) if not any(x is b[0] for b in binds.values())])
+            return super().generic_visit(node)
+    return ast.fix_missing_locations(Sub().visit(fn))
+
 # ---- (h) gating of the final checks by xsd_check (XMLElement._final_checks, to_string)
 def gating_ir():
     t = parse('musicxml/xmlelement/xmlelement.py')
@@ -659,6 +708,7 @@ def gating_ir():
     ts = find_func(t, 'XMLElement', 'to_string')
     if fc is None or ts is None:
         raise Fail('_final_checks / to_string not found')
+    fc, ts = inline_self_aliases(fc), inline_self_aliases(ts)
 
     def is_doc(st):
         return isinstance(st, ast.Expr) and isinstance(st.value, ast.Constant)
@@ -696,6 +746,10 @@ def gating_ir():
     else:
         raise Fail('_final_checks: unrecognised shape')
     tb = [st for st in ts.body if not is_doc(st)]
+    if len(tb) >= 2 and isinstance(tb[-2], ast.Assign) and len(tb[-2].targets) == 1 and isinstance(tb[-2].targets[0], ast.Name) \
+            and ast.unparse(tb[-2].value) == "ET.tostring(self.et_xml_element, encoding='unicode')" \
+            and ast.unparse(tb[-1]) in ("return %s + '\\n'" % tb[-2].targets[0].id, "return f'{%s}\\n'" % tb[-2].targets[0].id):
+        tb = tb[:-2] + [ast.parse("return ET.tostring(self.et_xml_element, encoding='unicode') + '\\n'").body[0]]
     tail = ['self._create_et_xml_element()', "return ET.tostring(self.et_xml_element, encoding='unicode') + '\\n'"]
     call = 'self._final_checks(intelligent_choice=intelligent_choice)'
     if len(tb) == 3 and isinstance(tb[0], ast.If) and ast.unparse(tb[0].test) == 'self.xsd_check' and not tb[0].orelse and \
